@@ -34,6 +34,8 @@ SetToSeq(S) == IF S = {} THEN << >>
 Out == {q \in DOMAIN rq : rq[q].st = "out"}
 DoneEvs(qs, cls) == [i \in 1..Len(qs) |-> Ev("done", 0, "", 0, "", cls, qs[i], FALSE, "")]
 Finish(qs) == [q \in DOMAIN rq |-> IF q \in qs THEN [rq[q] EXCEPT !.st = "done", !.xopen = FALSE] ELSE rq[q]]
+\* completion by a separate (CON/NON) response: the exchange of the request stays open until its ACK
+Complete(qs) == [q \in DOMAIN rq |-> IF q \in qs THEN [rq[q] EXCEPT !.st = "done"] ELSE rq[q]]
 
 Init == rq = << >> /\ shut = FALSE /\ budget = MaxEnv /\ emit = << >> /\ obs = ObsInit
 
@@ -60,7 +62,7 @@ RxResp(src, p, ty) ==
          rx == Ev("rx", src, ty, mid, TokOf(p), "resp", IF p # 0 /\ rq[p].r = src THEN p ELSE 0, FALSE, "")
          reply == IF ty # "CON" THEN << >>
                   ELSE <<Ev("tx", src, IF match THEN "ACK" ELSE "RST", mid, "", "empty", 0, FALSE, "")>>
-     IN /\ rq' = IF match THEN Finish({p})
+     IN /\ rq' = IF match THEN (IF ty = "ACK" THEN Finish({p}) ELSE Complete({p}))
                  ELSE IF ty = "ACK" /\ p # 0 /\ rq[p].r = src THEN [rq EXCEPT ![p].xopen = FALSE] ELSE rq
         /\ Step(<<rx>> \o reply \o <<RxEnd>> \o (IF match THEN DoneEvs(<<p>>, "resp") ELSE << >>))
   /\ budget' = budget - 1
